@@ -10,6 +10,7 @@ import (
 	"fmt"
 	"math/rand"
 	"os"
+	goruntime "runtime"
 	"strings"
 
 	"github.com/open2b/scriggo"
@@ -96,7 +97,7 @@ func (r *recorder) decls() native.Declarations {
 			case int:
 				r.ev = append(r.ev, 100+x)
 			default:
-				r.strange = append(r.strange, fmt.Sprintf("recover:%T:%v", v, v))
+				r.strange = append(r.strange, "recover:"+safeString(v))
 				r.ev = append(r.ev, 199)
 			}
 		},
@@ -369,6 +370,27 @@ func tmplFix(s string) string { return strings.ReplaceAll(s, "ext.", "") }
 
 // ---------------------------------------------------------------- running
 
+// safeString describes a value without calling methods of types the driver does not own: an Error or String
+// method of the code under test may itself be broken (internal/runtime.stopError.Error calls itself), and a stack
+// overflow cannot be recovered.
+func safeString(v any) string {
+	switch x := v.(type) {
+	case nil:
+		return "nil"
+	case string:
+		return "string: " + x
+	case int:
+		return fmt.Sprintf("int: %d", x)
+	case *stopErr:
+		return fmt.Sprintf("*main.stopErr: E%d", x.n)
+	case *fatalVal:
+		return fmt.Sprintf("*main.fatalVal: V%d", x.n)
+	case goruntime.Error:
+		return fmt.Sprintf("%T: %s", v, x.Error())
+	}
+	return fmt.Sprintf("%T", v)
+}
+
 func chainOf(p *scriggo.PanicError) (out []any) {
 	defer func() {
 		if r := recover(); r != nil {
@@ -387,7 +409,7 @@ func chainOf(p *scriggo.PanicError) (out []any) {
 			v = x
 		}
 		out = append(out, map[string]any{"v": v, "rec": p.Recovered(), "path": p.Path(), "line": p.Position().Line,
-			"msg": fmt.Sprintf("%T:%v", p.Message(), p.Message())})
+			"msg": safeString(p.Message())})
 		p = p.Next()
 	}
 	return out
@@ -454,7 +476,7 @@ func runOne(c *c12Case, variant string) map[string]any {
 		defer func() {
 			if r := recover(); r != nil {
 				outcome, val = "hostpanic", -1
-				detail = fmt.Sprintf("%T: %v", r, r)
+				detail = safeString(r)
 				if fv, ok := r.(*fatalVal); ok {
 					for i, x := range rec.fatals {
 						if x == fv {
@@ -474,7 +496,7 @@ func runOne(c *c12Case, variant string) map[string]any {
 			return
 		}
 		outcome, val = "error", -1
-		detail = fmt.Sprintf("%T: %v", err, err)
+		detail = safeString(err)
 		for i, x := range rec.stops {
 			if err == error(x) { // identity: the very value given to Stop
 				outcome, val = "stop", i
